@@ -286,6 +286,7 @@ pub struct Sim<'w> {
     pub hot_loop: bool,
     pub budget_exhausted: bool,
     pub last_fetch_ms: Option<i64>,
+    pub slot_expired_sends: u64,
     pub deferred: Vec<Fail>,
     pub evals: u64,
 }
@@ -323,6 +324,7 @@ impl<'w> Sim<'w> {
             hot_loop: false,
             budget_exhausted: false,
             last_fetch_ms: None,
+            slot_expired_sends: 0,
             deferred: vec![],
             evals: 0,
         })
@@ -639,7 +641,9 @@ impl<'w> Sim<'w> {
         self.check_bounds()
     }
 
-    /// A sender asks for a path at `self.now`.
+    /// A sender asks for a path at `self.now`: `cached_path` and `path_wait` (what
+    /// `UdpScionSocket::send_to` calls) are the observation; the lock-free slot is read as well to
+    /// relate them to the worker's state.
     pub fn send(&mut self) -> CheckResult {
         let now = self.now;
         let now_ms = ms(now);
@@ -648,57 +652,86 @@ impl<'w> Sim<'w> {
         if self.model.saw_rejected {
             self.sends_after_rejected += 1;
         }
-        // what every read API clones: the lock-free slot (also marks the pair as used)
-        let slot = self.drv.try_active_path();
-        match slot {
+        let focus = self.focus;
+        // the manager's own debug assertion on an expired path is the liveness violation itself
+        let resign = move |mut f: Fail| {
+            if f.sig.contains("Returned expired path") {
+                f.sig = match focus {
+                    Focus::C06 => "expired-path-handed-out:between-fetch-ticks".into(),
+                    Focus::C05 => "provenance:expired-path-returned:between-fetch-ticks".into(),
+                };
+            }
+            f
+        };
+        // expired by the spec (raw bytes), or by the manager's whole-second rule (<= 0.5 s earlier)
+        let expired = |seen: &Seen| seen.expiry_ms <= now_ms || seen.expiry_ms.div_euclid(1000) <= now_ms.div_euclid(1000);
+        let slot = self.drv.try_active_path(); // also marks the pair as used, like a sender
+        let cp = no_panic("MultiPathManager::cached_path", || self.drv.cached_path(now)).map_err(resign)?;
+        let pw = no_panic("PathManager::path_wait", || self.drv.path_wait(now)).map_err(resign)?;
+
+        // ---- (1) whatever is handed out is live
+        let mut handed: Vec<&ScionPath> = cp.iter().collect();
+        if let Some(Ok(q)) = &pw {
+            handed.push(q);
+        }
+        for p in &handed {
+            let seen: Seen = self.w.see(p).map_err(|e| Fail::new("returned-path-undecodable", e))?;
+            if expired(&seen) {
+                let survived = self.last_fetch_ms.map(|t| t >= seen.expiry_ms).unwrap_or(false);
+                let sig = match (self.focus, survived) {
+                    (Focus::C06, false) => "expired-path-handed-out:between-fetch-ticks",
+                    (Focus::C06, true) => "expired-path-handed-out:survived-a-fetch-tick",
+                    (Focus::C05, false) => "provenance:expired-path-returned:between-fetch-ticks",
+                    (Focus::C05, true) => "provenance:expired-path-returned:survived-a-fetch-tick",
+                };
+                let f = Fail::new(sig, format!(
+                    "send at {now_ms} ms gets the path of route {:?} whose hop fields expired at {} ms (next maintenance due in {:?}, failed_attempts {})",
+                    seen.route, seen.expiry_ms, self.drv.next_maintain(now), self.drv.failed_attempts()));
+                self.defer(f);
+                return Ok(());
+            }
+        }
+        // ---- the two read APIs agree
+        match (&cp, &pw) {
+            (Some(a), Some(Ok(b))) => ensure!(a == b, "read-apis-disagree", "cached_path and path_wait returned different paths"),
+            (None, Some(Err(_))) => {}
+            (None, None) => ensure!(!self.drv.initialized(), "sender-would-block-after-initial-fetch", "path_wait pending although the initial fetch completed and no fetch is ongoing"),
+            (a, b) => return Err(Fail::new("read-apis-disagree", format!("cached_path gave {:?}, path_wait gave {:?}", a.as_ref().map(|_| "a path"), b.as_ref().map(|r| r.as_ref().map(|_| "a path"))))),
+        }
+        // ---- relation to the worker's slot
+        match &slot {
             Some((p, _)) => {
+                let seen: Seen = self.w.see(p).map_err(|e| Fail::new("returned-path-undecodable", e))?;
+                if expired(&seen) {
+                    // an expired path still in the slot must not be handed out (checked above) and
+                    // must not outlive a fetch tick (which drops expired paths)
+                    self.slot_expired_sends += 1;
+                    if self.last_fetch_ms.map(|t| t >= seen.expiry_ms).unwrap_or(false) {
+                        self.defer(Fail::new("expired-path-in-slot:survived-a-fetch-tick", format!(
+                            "at {now_ms} ms the active slot holds route {:?} expired at {} ms although a fetch tick ran at {:?} ms", seen.route, seen.expiry_ms, self.last_fetch_ms)));
+                    }
+                } else {
+                    ensure!(cp.as_ref() == Some(p), "live-active-path-not-handed-out", "the active slot holds the live route {:?} but cached_path returned {:?}", seen.route, cp.as_ref().map(|c| self.w.see(c)));
+                }
+            }
+            None => ensure!(cp.is_none(), "path-handed-out-with-empty-slot", "active slot empty but cached_path returned a path"),
+        }
+        match &cp {
+            Some(p) => {
                 self.sends_with_path += 1;
-                let seen: Seen = self.w.see(&p).map_err(|e| Fail::new("returned-path-undecodable", e))?;
-                // --- liveness first: with debug assertions the read APIs would panic on this
-                // expired by the spec (raw bytes), or by the manager's own whole-second rule (its
-                // read APIs assert on that in debug builds; at most 0.5 s earlier)
-                if seen.expiry_ms <= now_ms || seen.expiry_ms.div_euclid(1000) <= now_ms.div_euclid(1000) {
-                    // did a fetch tick (which drops expired paths) run at or after the expiry?
-                    let survived = self.last_fetch_ms.map(|t| t >= seen.expiry_ms).unwrap_or(false);
-                    let sig = match (self.focus, survived) {
-                        (Focus::C06, false) => "expired-path-handed-out:between-fetch-ticks",
-                        (Focus::C06, true) => "expired-path-handed-out:survived-a-fetch-tick",
-                        (Focus::C05, false) => "provenance:expired-path-returned:between-fetch-ticks",
-                        (Focus::C05, true) => "provenance:expired-path-returned:survived-a-fetch-tick",
-                    };
-                    let f = Fail::new(sig, format!(
-                        "send at {now_ms} ms gets the path of route {:?} whose hop fields expired at {} ms (next maintenance due in {:?}, failed_attempts {})",
-                        seen.route, seen.expiry_ms, self.drv.next_maintain(now), self.drv.failed_attempts()));
-                    self.defer(f);
-                    // the read APIs would hit the manager's debug assertion: skip them
-                    return Ok(());
-                }
-                let cp = no_panic("MultiPathManager::cached_path", || self.drv.cached_path(now))?;
-                let pw = no_panic("PathManager::path_wait", || self.drv.path_wait(now))?;
-                ensure!(cp.as_ref() == Some(&p), "read-apis-disagree:cached_path", "cached_path returned {:?} while the active slot holds route {:?}", cp.map(|c| self.w.see(&c)), seen.route);
-                match pw {
-                    Some(Ok(q)) => ensure!(q == p, "read-apis-disagree:path_wait", "path_wait returned a different path than the active slot (route {:?})", seen.route),
-                    other => return Err(Fail::new("read-apis-disagree:path_wait", format!("active slot holds route {:?} but path_wait gave {:?}", seen.route, other.map(|r| r.map(|_| ())))))
-                }
                 if self.focus == Focus::C05 {
-                    self.check_policy_and_provenance(&p, &seen, now_ms)?;
+                    let seen: Seen = self.w.see(p).map_err(|e| Fail::new("returned-path-undecodable", e))?;
+                    self.check_policy_and_provenance(p, &seen, now_ms)?;
                 }
             }
             None => {
-                let cp = no_panic("MultiPathManager::cached_path", || self.drv.cached_path(now))?;
-                let pw = no_panic("PathManager::path_wait", || self.drv.path_wait(now))?;
-                ensure!(cp.is_none(), "read-apis-disagree:cached_path", "active slot empty but cached_path returned a path");
-                match pw {
-                    None => ensure!(!self.drv.initialized(), "sender-would-block-after-initial-fetch", "path_wait pending although the initial fetch completed and no fetch is ongoing"),
-                    Some(Ok(_)) => return Err(Fail::new("read-apis-disagree:path_wait", "active slot empty but path_wait returned a path")),
-                    Some(Err(_)) => {}
-                }
-                if self.focus == Focus::C05 {
-                    // no admissible path => error recorded (after a completed fetch attempt)
-                    if self.model.last_outcome == Some(FetchOutcome::Failure) {
+                if self.focus == Focus::C05 && self.drv.initialized() {
+                    // no path => the caller gets an error; after a fetch without any
+                    // policy-conform path it is also recorded
+                    ensure!(matches!(pw, Some(Err(_))), "no-path-but-no-error-returned", "path_wait did not return an error");
+                    if slot.is_none() && self.model.last_outcome == Some(FetchOutcome::Failure) {
                         ensure!(self.drv.current_error().is_some(), "no-path-but-no-error-recorded",
                             "send at {now_ms} ms: no path, the last fetch delivered nothing policy-conform, but current_error is unset");
-                        ensure!(matches!(pw, Some(Err(_))), "no-path-but-no-error-returned", "path_wait did not return an error");
                     }
                 }
             }
@@ -792,6 +825,7 @@ pub fn run(w: &World, case: &Case, focus: Focus, obs: &mut Obs) -> Result<(SimSu
         ended_idle: sim.ended && !sim.budget_exhausted,
         hot_loop: sim.hot_loop,
         budget_exhausted: sim.budget_exhausted,
+        slot_expired_sends: sim.slot_expired_sends,
     }, deferred))
 }
 
@@ -809,4 +843,6 @@ pub struct SimSummary {
     pub ended_idle: bool,
     pub hot_loop: bool,
     pub budget_exhausted: bool,
+    /// sends that met an expired path in the worker's slot (and must not have received it)
+    pub slot_expired_sends: u64,
 }
